@@ -19,7 +19,7 @@ CLAIMS = {
  "C20": ("exhaustive table checks on rustc-evaluated constants; predicates as difference constraints; exact guards; formula-tree match on MIR",
          "Tables (31 size strings, de Bruijn pair) exhaustively; is_log_valid/is_valid shapes; the four relation predicates and compare_sizes as difference constraints equal the definition; capping border dispatch; cap and raw-score formula trees equal the documented formulas and are reached only in their asserted domain. Value-range facts (1..=100) are not decided.", "§3.1, §3.3, §3.8, §4 C20"),
  "C04": ("panic-edge audit over the resolved call graph (MIR Assert/Index/unwrap edges with automatic and reviewed discharges, who-may-call and bounded-input side conditions) + error-path purity + dominance rule on error origins",
-         "Totality of parsing is decided as: every panic edge reachable from the six generic parse entry points in release-like configurations is discharged or reviewed with a structural side condition (the RLE encoder is callable only from the bounded compressor); the caller's index is written only on the way to Ok; error origins follow the parser phase; stored symbols come from the exact reverse table under the not-INVALID guard into fresh objects. That the accepted language equals the grammar is NOT decided.", "§3.10, §3.4, §4 C04"),
+         "Totality of parsing is decided as: every panic edge reachable from the six generic parse entry points in release-like configurations is discharged or reviewed with a structural side condition (the RLE encoder is callable only from the bounded compressor); the caller's index is written only on the way to Ok; error origins follow the parser phase; stored symbols come from the exact reverse table under the not-INVALID guard into fresh objects; the grammar is decided as outcome tables (block-size field outcomes, block-hash stop-state classification with consumed counts, driver (field, state) -> outcome/position/index) read off exact branch conditions. The composition of the tables into `language == grammar` over all strings is by reading, not mechanised.", "§3.10, §3.4, §4 C04"),
  "C06": ("tail-clear rule (linear normal form of fill start vs stored length), resolved-call-graph funnel rule, sibling agreement of run-limit comparisons, on MIR",
          "Decides: freed tail cleared by the in-place normaliser and the dual compressor; every normalising route reaches the one in-place routine unconditionally for both block hashes with the source's NORM flag; the three run-collapsers and the checker test `counter >= MAX_SEQUENCE_SIZE(3)` right after the increment; is_normalized inspects both block hashes with like indices. That the surviving characters are right / idempotence as values are NOT decided.", "§3.6, §3.13, §4 C06"),
  "C07": ("write census over RLE storage, tail-clear rule, who-may-call rule on the encoder, Eq/Hash/Ord field agreement, on MIR",
